@@ -605,7 +605,7 @@ func (c *ctx) engineCase(a, b Schema, desc string, o engineOpts) {
 	if len(cs) > 0 {
 		c.w.NonTrivial(showSchemaChanges(cs, nil))
 	}
-	if o.exported && strings.HasSuffix(desc, ":same") && len(cs) > 0 {
+	if o.exported && strings.HasPrefix(desc, "exported-grid:") && strings.HasSuffix(desc, ":same") && len(cs) > 0 { // grid only: random tables carry defaults the HCL document respells (C03's findings)
 		// D2 is D1 itself: its own export must not plan anything (FindGeneratedIndex has to find the renamed constraint index)
 		c.w.Violation(id, "exported-self-diff", ic+fmt.Sprintf("the unedited export of a database, applied to an identical database, is not a no-op: diff=%s [%s]", showSchemaChanges(cs, nil), desc))
 	}
